@@ -10,6 +10,7 @@ import (
 	"io"
 	"math"
 	"strings"
+	"sync"
 
 	"github.com/gotd/td/bin"
 	"github.com/gotd/td/crypto"
@@ -190,6 +191,25 @@ func evalBind(w wBind) kit.Result {
 		}
 		return kit.Bad("bind-error", "EncryptBindMessage failed: %v", err)
 	}
+	return judgeBind(out, ak[:], bindWant{MsgID: w.MsgID, Nonce: w.Nonce, TempKeyID: w.TempKeyID, PermField: permField, TempSessID: w.TempSessID, Expires: w.Expires})
+}
+
+// bindWant: what a bind message has to decrypt to.
+type bindWant struct {
+	MsgID      int64
+	Nonce      int64
+	TempKeyID  int64
+	PermField  int64
+	TempSessID int64
+	Expires    int32
+}
+
+// judgeBind decrypts the bind message `out` under the permanent key `permKey` with the reference only and
+// compares every field with `w`.
+func judgeBind(out []byte, permKey []byte, w bindWant) kit.Result {
+	refID := refcrypto.AuthKeyID(permKey)
+	ak := permKey
+	permField := w.PermField
 	if len(out) < 24 || (len(out)-24)%16 != 0 {
 		return kit.Bad("bind-length", "bind message has %d bytes", len(out))
 	}
@@ -251,6 +271,7 @@ func main() {
 		fKDF1 := kit.NewFamily(c, "keys-v1", evalKDF1)
 		fMK1 := kit.NewFamily(c, "msg-key-v1", evalMsgKey1)
 		fBind := kit.NewFamily(c, "bind-message", evalBind)
+		kit.NewFamily(c, "bind-conn", evalBindConn)
 		if c.Replaying() {
 			return
 		}
@@ -260,6 +281,11 @@ func main() {
 			"keys-v1: crypto.KeysV1 vs the MTProto 1.0 sha1_a..sha1_d construction with x=0 over the same key x msg-key sets. msg-key-v1: MessageKeyV1 vs SHA1(data)[4:20], lengths 0..128 (thorough 0..1024) x 3 patterns. " +
 			"bind-message: EncryptBindMessage for (msg_id, nonce, temp_auth_key_id, temp_session_id, expires_at) in {0,1,-1,min,max}^5 x random streams {00,FF,stream} x permanent key sha:c06-perm (thorough also count, ff, onehot:0:01), " +
 			"plus 7 structured permanent keys and perm_auth_key_id field values {real,0,-1}; decrypted by the reference only (KDF v1, AES-IGE): auth_key_id, msg_key = SHA1(unpadded)[4:20], msg_id, seq_no 0, length 40, padding <= 15, all five inner fields. " +
+			"bind-conn: the real mtproto.Conn.bindTempAuthKey (PFS mode; retry loop of 3 attempts, bad_server_salt re-send, rpc engine resends) against a scripted server: the complete tree of server reactions " +
+			"{ok, boolFalse, bad_server_salt, bad_msg_notification 16/33, rpc_error ENCRYPTED_MESSAGE_INVALID / CONNECTION_NOT_INITED / 500, no answer until the retry timer fires, transport error} per emitted request, " +
+			"fed through the connection's own handleResult/handleBadMsg, until the client stops (rpc MaxRetries 1 and 2; thorough also 3) x permanent key age {unknown, fresh, >60s} x temp key expiry {recorded, unrecorded} x 2 key pairs (thorough 4) " +
+			"plus single bindTempAuthKeyAttempt runs; EVERY emitted auth.bindTempAuthKey is parsed independently and its encrypted_message decrypted by the reference under the PERMANENT key: auth_key_id, msg_key, " +
+			"inner msg_id = msg_id of the carrying request, seq_no 0, nonce/expires_at equal to the request's, temp_auth_key_id = id of the temporary key in use, perm_auth_key_id, temp_session_id = session in use, expires_at = recorded expiry. " +
 			"Oracle: byte equality with the reference. distinct = distinct witnesses.")
 		c.Assume("reference KDF v2/v1, msg_key and AES-IGE in lib/refcrypto are transcriptions of the formulas in core.telegram.org/mtproto/description and description_v1; " +
 			"one-hot keys make every offset/length of every substr observable, so the structured set stands for 'all keys'")
@@ -333,6 +359,49 @@ func main() {
 						}
 					}
 				}
+			}
+		}
+		// bind-conn
+		{
+			pairs := [][2]string{{"sha:c06-perm", "sha:c06-temp"}, {"count", "ff"}}
+			retries := []int{1, 2}
+			if c.Thorough() {
+				pairs = append(pairs, [2]string{"onehot:0:01", "onehot:255:80"}, [2]string{"ff", "sha:c06-perm"})
+				retries = []int{1, 2, 3}
+			}
+			var bases []wBindConn
+			for _, mr := range retries {
+				for pi, p := range pairs {
+					for _, age := range []string{"unknown", "fresh", "old"} {
+						for _, ex := range []string{"recorded", "unrecorded"} {
+							for _, single := range []bool{false, true} {
+								if single && (pi > 0 || mr > 1) {
+									continue
+								}
+								rnd := []string{"stream", "zero", "ff"}[(pi+len(bases))%3]
+								bases = append(bases, wBindConn{Perm: p[0], Temp: p[1], Session: 0x7766554433221100 + int64(pi), Salt: 0x0123456789abcdef,
+									Expiry: ex, Age: age, MaxRetries: mr, Single: single, Rand: rnd})
+							}
+						}
+					}
+				}
+			}
+			var mu sync.Mutex
+			total, deepest, cut := 0, 0, false
+			kit.Parallel(len(bases), 16, func(i int) {
+				r, d, ct := exploreBindConn(c, bases[i], 0)
+				mu.Lock()
+				total += r
+				if d > deepest {
+					deepest = d
+				}
+				cut = cut || ct
+				mu.Unlock()
+			})
+			c.Set("bind_conn_scripts", total)
+			c.Set("bind_conn_max_emissions", deepest)
+			if cut {
+				c.NotExhaustive("time budget: bind-conn script tree not completed (%d scripts run)", total)
 			}
 		}
 		for _, k := range []string{"zero", "ff", "count", "onehot:0:01", "onehot:255:80", "onehot:127:01", "onehot:128:01", "sha:c06-a"} {
